@@ -1,5 +1,6 @@
 """C18 — BIP158 / BIP37 filters (structural clauses)."""
 import ast
+import re
 
 from sa import rl
 from sa.cfg import cfg_of
@@ -87,10 +88,28 @@ def c18_2(ctx):
     # encoder: F = len(items)·M over the list as given; N written = len(sorted_items)
     mod, fn = rl.get(ctx, "compactfilter:hashed_items")
     src = ast.unparse(fn)
-    if "n = len(items)" in src and "f = n * GOLOMB_M" in src and "return sorted(result)" in src:
-        out.append(ctx.ok("compactfilter:hashed_items", "encoder: F = len(items)·M, hashes sorted (duplicates kept)", fn, mod, key="enc-f"))
+    from sa import algebra
+    items_p = param_names(fn)[1]
+    # F: the third argument of hash_to_range, as a product; the result: sorted(...)
+    fsite = [(n_, c) for n_, c in rl.find_calls(fn, "hash_to_range")]
+    rets = [n_ for n_ in cfg_of(fn).returns() if n_.ast is not None and n_.ast.value is not None]
+    if not fsite or len(fsite[0][1].args) < 3 or not rets:
+        out.append(ctx.err("compactfilter:hashed_items", "hash_to_range(key, item, F) call / return not found", fn, mod))
     else:
-        out.append(ctx.bad("compactfilter:hashed_items", "encoder range is not len(items)·M over the item list / result not sorted", fn, mod, key="enc-f"))
+        n_, c = fsite[0]
+        fexp = expand(fn, n_.id, c.args[2], depth=3)
+        tt = algebra.terms(fexp)
+        fac = sorted(tt[0][1].split(" * ")) if len(tt) == 1 and tt[0][0] == 1 else None
+        is_sorted = all(isinstance(expand(fn, r_.id, r_.ast.value, depth=2), ast.Call) and call_name(expand(fn, r_.id, r_.ast.value, depth=2)) == "sorted" for r_ in rets) \
+            or any(isinstance(x, ast.Call) and isinstance(x.func, ast.Attribute) and x.func.attr == "sort" for x in ast.walk(fn))
+        if fac == sorted(["GOLOMB_M", "len(%s)" % items_p]) and is_sorted:
+            out.append(ctx.ok("compactfilter:hashed_items", "encoder: F = len(items)·M, hashes sorted (duplicates kept)", fn, mod, key="enc-f"))
+        elif fac is not None and fac != sorted(["GOLOMB_M", "len(%s)" % items_p]) and any("len(" in x for x in fac):
+            out.append(ctx.bad("compactfilter:hashed_items", "encoder range F is `%s`, BIP158: N·M with N the number of items given (duplicates counted)" % ast.unparse(fexp), c, mod, key="enc-f"))
+        elif not is_sorted:
+            out.append(ctx.bad("compactfilter:hashed_items", "the hashed values are not sorted before delta coding", fn, mod, key="enc-f"))
+        else:
+            out.append(ctx.err("compactfilter:hashed_items", "range expression `%s` not recognised" % ast.unparse(fexp), c, mod))
     mod, fn = rl.get(ctx, "compactfilter:hash_to_range")
     r = [ast.unparse(s.value) for s in ast.walk(fn) if isinstance(s, ast.Return)]
     if r == ["_siphash(key, value) * f >> 64"]:
@@ -228,13 +247,25 @@ def c18_4(ctx):
     tails = []
     for n in cfg.tests():
         t = n.ast
-        if isinstance(t, ast.Compare) and isinstance(t.left, ast.Name) and t.left.id == "val":
-            v = f.fold(t.comparators[0])
-            tails.append(tuple(v) if isinstance(v, (list, tuple)) else (v,))
+        # a test on the tail length (length & 3 / length % 4, whatever the local is called): its truth set over {0,1,2,3}
+        if isinstance(t, ast.Compare) and len(t.ops) == 1 and isinstance(t.left, ast.Name):
+            at = origins(fn, n.id, t.left)
+            if not (("op:BitAnd" in at or "op:Mod" in at) and "call:len" in at):
+                continue
+            c = f.fold(t.comparators[0])
+            op = type(t.ops[0])
+            try:
+                truth = tuple(k for k in range(4) if {ast.In: lambda: k in c, ast.NotIn: lambda: k not in c, ast.Eq: lambda: k == c, ast.NotEq: lambda: k != c,
+                                                      ast.Gt: lambda: k > c, ast.GtE: lambda: k >= c, ast.Lt: lambda: k < c, ast.LtE: lambda: k <= c}[op]())
+            except (KeyError, TypeError):
+                continue
+            tails.append(truth)
     if sorted(tails) == [(1, 2, 3), (2, 3), (3,)]:
         out.append(ctx.ok(spec, "tail bytes: 3 → byte 2, {2,3} → byte 1, {1,2,3} → byte 0 and the k1 mix", fn, mod, key="tail"))
+    elif len(tails) == 3:
+        out.append(ctx.bad(spec, "tail cascade tests hold for lengths %s, expected (3), (2,3), (1,2,3)" % sorted(tails), fn, mod, key="tail"))
     else:
-        out.append(ctx.bad(spec, "tail cascade tests %s, expected (3), (2,3), (1,2,3)" % sorted(tails), fn, mod, key="tail"))
+        out.append(ctx.err(spec, "tail cascade not recognised (tests on the tail length: %s)" % sorted(tails), fn, mod))
     # result masked
     rets = [s.value for s in ast.walk(fn) if isinstance(s, ast.Return)]
     if rets and _mask_bits(rets[0], f) == 32:
@@ -262,6 +293,46 @@ def c18_5(ctx):
         out.append(ctx.bad("compactfilter:encode_golomb↔decode_golomb", "remainder bit order differs between encoder and decoder", fn, mod, key="golomb"))
     else:
         out.append(ctx.err("compactfilter:encode_golomb↔decode_golomb", "Golomb-Rice idioms not recognised", fn, mod))
+    # padding of the Golomb bit stream: exactly (-n) mod 8 zero bits (0..7), never a whole extra byte
+    pmod, pfn = rl.get(ctx, "compactfilter:pack_bits")
+    bparam = param_names(pfn)[0]
+    pads = []
+    for n_ in cfg_of(pfn).stmts(("stmt",)):
+        a_ = n_.ast
+        v_ = a_.value if isinstance(a_, (ast.Assign, ast.AugAssign)) else None
+        if v_ is None:
+            continue
+        for b_ in ast.walk(v_):
+            if isinstance(b_, ast.BinOp) and isinstance(b_.op, ast.Mult):
+                for lst, cnt in ((b_.left, b_.right), (b_.right, b_.left)):
+                    if isinstance(lst, ast.List) and len(lst.elts) == 1 and isinstance(lst.elts[0], ast.Constant) and lst.elts[0].value == 0:
+                        pads.append((n_, expand(pfn, n_.id, cnt, depth=2)))
+    if not pads:
+        out.append(ctx.err("compactfilter:pack_bits", "zero padding `[0] * k` not found", pfn, pmod))
+    else:
+        import copy
+        n_, cnt = pads[0]
+        wrong = None
+        undecided = False
+        for r in range(0, 17):
+            class _L(ast.NodeTransformer):
+                def visit_Call(self, node):
+                    if isinstance(node.func, ast.Name) and node.func.id == "len" and node.args and ast.unparse(node.args[0]) == bparam:
+                        return ast.copy_location(ast.Constant(value=r), node)
+                    return self.generic_visit(node)
+            k = Folder(ctx.repo, pmod.name).fold(ast.fix_missing_locations(_L().visit(copy.deepcopy(cnt))))
+            if not isinstance(k, int):
+                undecided = True
+                break
+            if k != (-r) % 8 and wrong is None:
+                wrong = (r, k)
+        if undecided:
+            out.append(ctx.err("compactfilter:pack_bits", "padding count `%s` not evaluable" % ast.unparse(cnt), n_.ast, pmod))
+        elif wrong:
+            out.append(ctx.bad("compactfilter:pack_bits", "a stream of %d bits is padded with %d zero bits (`%s`); BIP158 pads to the next byte boundary only: %d" % (
+                wrong[0], wrong[1], ast.unparse(cnt), (-wrong[0]) % 8), n_.ast, pmod, key="pad"))
+        else:
+            out.append(ctx.ok("compactfilter:pack_bits", "the bit stream is padded with (-n) mod 8 zero bits", n_.ast, pmod, key="pad"))
     src_p = ast.unparse(rl.get(ctx, "compactfilter:pack_bits")[1])
     src_u = ast.unparse(rl.get(ctx, "compactfilter:unpack_bits")[1])
     mod, fn = rl.get(ctx, "compactfilter:pack_bits")
@@ -269,7 +340,7 @@ def c18_5(ctx):
     u_ok = ("byte & 128" in src_u or "byte & 0x80" in src_u) and "byte <<= 1" in src_u
     if p_ok and u_ok:
         out.append(ctx.ok("compactfilter:pack_bits↔unpack_bits", "bits are packed MSB-first with zero padding to a byte boundary; unpacking tests 0x80 and shifts left", fn, mod, key="pack"))
-    elif ("byte & 1" in src_u) != ("1 << i" in src_p):
+    elif (re.search(r"byte & 1(?![0-9])", src_u) is not None) != ("1 << i" in src_p):
         out.append(ctx.bad("compactfilter:pack_bits↔unpack_bits", "bit order differs between packing and unpacking", fn, mod, key="pack"))
     else:
         out.append(ctx.err("compactfilter:pack_bits↔unpack_bits", "bit packing idioms not recognised", fn, mod))
@@ -281,7 +352,7 @@ def c18_5(ctx):
             and "num_items = read_varint(s)" in src_g and "decode_golomb(bits, GOLOMB_P)" in src_g and ("current += delta" in src_g or "current += decode_golomb(bits, GOLOMB_P)" in src_g):
         out.append(ctx.ok("compactfilter:serialize_gcs↔decode_gcs", "N (compact size) ‖ Golomb-Rice coded deltas with P; decoder accumulates the deltas", fn, mod, key="gcs"))
     else:
-        out.append(ctx.bad("compactfilter:serialize_gcs↔decode_gcs", "GCS serialisation / parsing are not N ‖ deltas(P) mirrored", fn, mod, key="gcs"))
+        out.append(ctx.err("compactfilter:serialize_gcs↔decode_gcs", "GCS serialisation / parsing idiom (N ‖ deltas(P), decoder accumulates) not recognised", fn, mod))
     return out
 
 
@@ -311,19 +382,68 @@ def c18_6(ctx):
     return out
 
 
+def _with_callees(mod, fn, cls):
+    """fn plus the methods of its class it calls through self (one level): extracted helpers / generators"""
+    out = [fn]
+    for c in ast.walk(fn):
+        if isinstance(c, ast.Call) and isinstance(c.func, ast.Attribute) and isinstance(c.func.value, ast.Name) and c.func.value.id == "self":
+            g = mod.functions.get("%s.%s" % (cls, c.func.attr))
+            if g is not None and g not in out:
+                out.append(g)
+    return out
+
+
 def c18_7(ctx):
+    from sa import algebra
     spec = "bloomfilter:BloomFilter.add"
     mod, fn = rl.get(ctx, spec)
-    src = ast.unparse(fn)
+    fns = _with_callees(mod, fn, "BloomFilter")
     out = []
-    if "seed = i * BIP37_CONSTANT + self.tweak" in src and "range(self.function_count)" in src:
-        out.append(ctx.ok(spec, "seed_i = i·0xFBA4C795 + tweak for i < nHashFuncs", fn, mod, key="seed"))
+    f = Folder(ctx.repo, mod.name)
+    # the murmur3 call and its seed
+    site = None
+    for g in fns:
+        for n_, c in rl.find_calls(g, "murmur3"):
+            site = (g, n_, c)
+    if site is None:
+        return [ctx.err(spec, "murmur3 call not found in add() or the methods it calls", fn, mod)]
+    g, n_, c = site
+    ctx.note_fn(mod, g)
+    seed = next((k.value for k in c.keywords if k.arg == "seed"), c.args[1] if len(c.args) > 1 else None)
+    loops = [lp for lp in ast.walk(g) if isinstance(lp, ast.For) and isinstance(lp.target, ast.Name)]
+    ivar = next((lp.target.id for lp in loops if ast.unparse(lp.iter) == "range(self.function_count)"), None)
+    if seed is None or ivar is None:
+        out.append(ctx.err(spec, "seed / loop over the hash functions not recognised (seed=%s, loops=%s)" % (ast.unparse(seed) if seed is not None else None,
+                                                                                                       [ast.unparse(lp.iter) for lp in loops]), c, mod))
     else:
-        out.append(ctx.bad(spec, "hash seed is not i·BIP37_CONSTANT + tweak over range(function_count)", fn, mod, key="seed"))
-    if "bit = h % (self.size * 8)" in src and "self.bit_field[bit] = 1" in src and "murmur3(item, seed=seed)" in src:
-        out.append(ctx.ok(spec, "bit = murmur3(item, seed) mod (8·size) is set", fn, mod, key="bit"))
+        ts = sorted(algebra.terms(expand(g, n_.id, seed, depth=2)))
+        want = sorted([(1, " * ".join(sorted(["BIP37_CONSTANT", ivar]))), (1, "self.tweak")])
+        want2 = sorted([(1, " * ".join(sorted([str(f.fold(ast.Name(id="BIP37_CONSTANT", ctx=ast.Load()))), ivar]))), (1, "self.tweak")])
+        if ts in (want, want2):
+            out.append(ctx.ok(spec, "seed_i = i·0xFBA4C795 + tweak for i < nHashFuncs", c, mod, key="seed"))
+        else:
+            out.append(ctx.bad(spec, "hash seed is `%s`, BIP37: i·0xFBA4C795 + nTweak for i in range(nHashFuncs)" % ast.unparse(expand(g, n_.id, seed, depth=2)), c, mod, key="seed"))
+    # bit index = murmur3(...) mod (size * 8), and that bit is set
+    mods = [b_ for g2 in fns for b_ in ast.walk(g2) if isinstance(b_, ast.BinOp) and isinstance(b_.op, ast.Mod)
+            and any(isinstance(x, ast.Call) and call_name(x) == "murmur3" for x in ast.walk(expand(g2, 0, b_.left, depth=0) if False else b_.left))]
+    if not mods:
+        # h = murmur3(...); bit = h % (...)
+        for g2 in fns:
+            for st in ast.walk(g2):
+                if isinstance(st, ast.BinOp) and isinstance(st.op, ast.Mod) and isinstance(st.left, ast.Name):
+                    defs = [a_ for a_ in ast.walk(g2) if isinstance(a_, ast.Assign) and isinstance(a_.targets[0], ast.Name) and a_.targets[0].id == st.left.id]
+                    if len(defs) == 1 and isinstance(defs[0].value, ast.Call) and call_name(defs[0].value) == "murmur3":
+                        mods.append(st)
+    sets = [a_ for g2 in fns for a_ in ast.walk(g2) if isinstance(a_, ast.Assign) and isinstance(a_.targets[0], ast.Subscript)
+            and ast.unparse(a_.targets[0].value) == "self.bit_field" and f.fold(a_.value) == 1]
+    if mods and sets:
+        fac = sorted(x for x in algebra.terms(mods[0].right)[0][1].split(" * ")) if len(algebra.terms(mods[0].right)) == 1 else None
+        if fac == ["8", "self.size"]:
+            out.append(ctx.ok(spec, "bit = murmur3(item, seed) mod (8·size) is set", mods[0], mod, key="bit"))
+        else:
+            out.append(ctx.bad(spec, "bit index is murmur3(…) mod `%s`, BIP37: mod (size·8)" % ast.unparse(mods[0].right), mods[0], mod, key="bit"))
     else:
-        out.append(ctx.bad(spec, "bit index is not murmur3(item, seed) mod (size·8)", fn, mod, key="bit"))
+        out.append(ctx.err(spec, "bit index computation / bit store not recognised", fn, mod))
     mod2, fn2 = rl.get(ctx, "bloomfilter:BloomFilter.__init__")
     if "[0] * (size * 8)" in ast.unparse(fn2):
         out.append(ctx.ok("bloomfilter:BloomFilter.__init__", "bit field has 8·size bits", fn2, mod2, key="field-size"))
